@@ -17,7 +17,7 @@
 (***************************************************************************)
 EXTENDS Checkpoint, TLC
 
-CONSTANTS Impl,     \* "asis" | "temp_float" | "theta_attr" | "lazy_buffer" | "private_stream"
+CONSTANTS Impl,     \* "asis" | "temp_float" | "theta_attr" | "lazy_buffer" | "private_stream" | "global_counter"
           Kind,     \* "pit" | "mps" | "sn"
           MaxV,     \* saturation of the version counters
           Temps     \* abstract temperature ids (1 = default)
